@@ -826,9 +826,42 @@ def notes_master_name_taken(ctx):
             ctx.fail("notes-master-name-taken", f"{label}: slide.notes_slide on a slide without notes; the saved package holds {dup} twice", {"deck": label})
 
 
+def core_properties_name_taken(ctx):
+    """the other part the library creates under a FIXED name: the default core-properties part (/docProps/core.xml).  A
+    package that relates its core.xml under another relationship type (the ECMA-376 first-edition URI) is, for the library,
+    without core properties - while the part is in the package; the first access to core_properties then adds a second
+    part of that name"""
+    import warnings
+    import zipfile
+
+    from pptx import Presentation
+
+    b = io.BytesIO(); Presentation().save(b)
+    zin = zipfile.ZipFile(io.BytesIO(b.getvalue()))
+    out = io.BytesIO()
+    with zipfile.ZipFile(out, "w", zipfile.ZIP_DEFLATED) as z:
+        for it in zin.infolist():
+            data = zin.read(it.filename)
+            if it.filename == "_rels/.rels":
+                data = data.replace(b"/package/2006/relationships/metadata/core-properties", b"/officedocument/2006/relationships/metadata/core-properties")
+            z.writestr(it, data)
+    prs = Presentation(io.BytesIO(out.getvalue()))
+    prs.core_properties.title = "t"
+    sv = io.BytesIO()
+    with warnings.catch_warnings():
+        warnings.simplefilter("ignore")
+        prs.save(sv)
+    names = zipfile.ZipFile(io.BytesIO(sv.getvalue())).namelist()
+    dup = sorted({n for n in names if names.count(n) > 1})
+    ctx.case(key=("core-properties-name-taken",)); ctx.count("excluded-point-runs")
+    if dup:
+        ctx.fail("core-properties-name-taken", f"core.xml related under the first-edition relationship type, core_properties accessed: the saved package holds {dup} twice", {})
+
+
 def correspond(ctx):
     slide_numbering(ctx)
     notes_master_name_taken(ctx)
+    core_properties_name_taken(ctx)
     rng = ctx.rng
     lines, hists = [], []
     n = 60 if ctx.quick else 1000
